@@ -18,7 +18,9 @@ type box struct{ x0, y0, x1, y1 float64 }
 
 func fromRect(r canvas.Rect) box { return box{r.X0, r.Y0, r.X1, r.Y1} }
 
-func (b box) String() string { return fmt.Sprintf("[%.12g,%.12g]x[%.12g,%.12g]", b.x0, b.x1, b.y0, b.y1) }
+func (b box) String() string {
+	return fmt.Sprintf("[%.12g,%.12g]x[%.12g,%.12g]", b.x0, b.x1, b.y0, b.y1)
+}
 
 // mapBox is the image of a box under an axis isometry.
 func mapBox(m oracle.Iso, b box) box {
